@@ -7,7 +7,7 @@ import "go/types"
 func (c *Ctx) ghostMapSort(g *GhostDecl) string {
 	pkg := ""
 	if c.fn != nil && c.fn.Pkg != nil {
-		pkg = c.fn.Pkg.Pkg.Path()
+		pkg = fnPkgPath(c.fn)
 	} else if c.con != nil {
 		pkg = c.con.Pkg
 	}
